@@ -5,6 +5,7 @@
  *   probe                  compile /c02/probe.c, print `probe <hash> ...` (structural dump hash), free the program
  *   src <hex>              append bytes to the main source  (-> /c02/t/x.c);  newsrc  empties it again
  *   file <name> <hex>      append bytes to /c02/t/<name>
+ *   pretext                compile the collected source as pre_text (no file), print the outcome like `compile`
  *   compile                write the files, compile /c02/t/x.c, print the outcome:
  *                            result prog | result errors <n> | result thrown | result none | result inherit
  * every trace point of the compiler prints `ev <event> <cursor> <size> [...]`.
@@ -23,7 +24,7 @@ extern char *inherit_file;
 #define MAXSRC (4 << 20)
 static char *src_buf;
 static size_t src_len;
-static struct { char name[64]; char *buf; size_t len; } files[64];
+static struct { char name[600]; char *buf; size_t len; } files[64];
 static int nfiles;
 
 /* ---- permanent identifiers touched by local-variable bookkeeping ------- */
@@ -195,7 +196,7 @@ static void dump_prog (const char *tag, program_t * prog)
 }
 
 /* compile one file of the mudlib like load_object() does; returns the program or 0 */
-static program_t *compile_path (const char *path, int *thrown)
+static program_t *compile_path_pre (const char *path, int *thrown, const char *pre_text)
 {
   error_context_t econ;
   program_t *volatile prog = 0;
@@ -206,8 +207,8 @@ static program_t *compile_path (const char *path, int *thrown)
     {
       eval_cost = CONFIG_INT (__MAX_EVAL_COST__);
       fd = open (path, O_RDONLY);
-      if (fd >= 0)
-        prog = compile_file (fd, path, 0);
+      if (fd >= 0 || pre_text)
+        prog = compile_file (fd, path, pre_text);
       pop_context (&econ);
     }
   else
@@ -223,8 +224,46 @@ static program_t *compile_path (const char *path, int *thrown)
   return prog;
 }
 
+static program_t *compile_path (const char *path, int *thrown)
+{
+  return compile_path_pre (path, thrown, 0);
+}
+
 static int c02_cmd (char *line)
 {
+  if (!strcmp (line, "pretext"))
+    {
+      /* compile the collected source as pre_text of a file that does not exist (what load_object(name, pre_text)
+       * does for the unit tests) */
+      int thrown;
+      program_t *prog;
+      if (!src_buf)
+        src_buf = (char *) calloc (1, MAXSRC);
+      src_buf[src_len] = 0;
+      nev = 0;
+      verif_compiler_trace = c02_trace;
+      vh_out ("cfg maxlocals %ld", (long) num_local_variables_allowed);
+      prog = compile_path_pre ("c02/t/nofile.c", &thrown, src_buf);
+      if (prog)
+        {
+          vh_out ("result prog");
+          free_prog (prog, 1);
+        }
+      else if (inherit_file)
+        {
+          /* load_object() would load the inherited file and retry; not followed up for pre_text compiles */
+          FREE (inherit_file);
+          inherit_file = 0;
+          vh_out ("result inherit");
+        }
+      else if (thrown)
+        vh_out ("result thrown");
+      else if (num_parse_error > 0)
+        vh_out ("result errors %d", num_parse_error);
+      else
+        vh_out ("result none");
+      return 1;
+    }
   if (!strcmp (line, "probe"))
     {
       int thrown;
@@ -256,16 +295,19 @@ static int c02_cmd (char *line)
     }
   if (!strncmp (line, "file ", 5))
     {
-      char name[64];
+      char name[600];
       const char *p = line + 5;
       int n = 0;
-      while (*p && *p != ' ' && n < 63)
+      while (*p && *p != ' ' && n < 599)
         name[n++] = *p++;
       name[n] = 0;
       while (*p == ' ')
         p++;
+      /* sub-directories of c02/t are allowed (created on demand); no "..", no absolute names */
+      if (name[0] == '/' || strstr (name, ".."))
+        return 0;
       for (const char *q = name; *q; q++)
-        if (!(isalnum ((unsigned char) *q) || *q == '_' || *q == '.'))
+        if (!(isalnum ((unsigned char) *q) || *q == '_' || *q == '.' || *q == '/'))
           return 0;
       int i;
       for (i = 0; i < nfiles; i++)
@@ -285,11 +327,18 @@ static int c02_cmd (char *line)
     {
       int thrown, tries = 0;
       program_t *prog;
-      char path[128];
+      char path[1024];
       mkdir ("c02/t", 0755);
       for (int i = 0; i < nfiles; i++)
         {
           snprintf (path, sizeof path, "c02/t/%s", files[i].name);
+          for (char *q = path + 6; *q; q++)
+            if (*q == '/')
+              {
+                *q = 0;
+                mkdir (path, 0755);
+                *q = '/';
+              }
           write_file (path, files[i].buf ? files[i].buf : "", files[i].len);
         }
       write_file ("c02/t/x.c", src_buf ? src_buf : "", src_len);
